@@ -94,6 +94,11 @@ var docFamilies = []docFamily{
 	{"flat-numbers", func(n int) []byte { return []byte("[" + strings.Repeat("12345.678,", 8*n) + "0]") }, wide},
 	{"flat-strings", func(n int) []byte { return []byte("[" + strings.Repeat(`"abcdefgh",`, 8*n) + `""]`) }, wide},
 	{"one-long-escaped-string", func(n int) []byte { return []byte(`["` + strings.Repeat(`ab\n`, 10*n) + `"]`) }, wide},
+	{"one-long-unicode-escaped-string", func(n int) []byte { return []byte(`["` + strings.Repeat(`\u4e2d\u6587`, 4*n) + `"]`) }, wide},
+	{"one-long-surrogate-pair-string", func(n int) []byte { return []byte(`["` + strings.Repeat(`\ud83d\ude00`, 4*n) + `"]`) }, wide},
+	{"one-long-mixed-escape-string", func(n int) []byte { return []byte(`["` + strings.Repeat(`a\n\u00e9\"bc\ud800`, 2*n) + `"]`) }, wide},
+	{"one-long-unicode-escaped-key", func(n int) []byte { return []byte(`{"` + strings.Repeat(`\u4e2d`, 8*n) + `":1}`) }, wide},
+	{"many-unicode-escaped-strings", func(n int) []byte { return []byte("[" + strings.Repeat(`"\u4e2d\u6587\u5b57",`, 2*n) + `""]`) }, wide},
 	{"one-long-plain-string", func(n int) []byte { return []byte(`"` + strings.Repeat("a", 40*n) + `"`) }, wide},
 	{"long-keys", func(n int) []byte {
 		return []byte("{" + strings.Repeat(`"`+strings.Repeat("k", 50)+`":1,`, n) + `"z":0}`)
